@@ -92,7 +92,7 @@ class Oracle:
             # a pause requested while the last step was in flight took effect together with the final transition;
             # "each run is completed by a final play": play() always leaves the process un-paused
             rec = w.call('play', origin='closing')
-            if rec['raised'] is not None or rec['ret'] != ('value', True) or proc.paused:
+            if rec['raised'] is not None or proc.paused:  # (what play() returns is not laid down)
                 w.violate('c:play-not-playing', features(w, rec, ret=str(rec['ret']), terminated=True),
                           f"play() on the terminated but still paused process returned {rec['ret']}, paused afterwards={proc.paused}")
             elif 'status_expected' in rec and rec.get('status_after') != rec['status_expected'] \
@@ -108,7 +108,7 @@ class Oracle:
                     w.violate(f"a:{rec['op']}-raises", features(w, rec, raised=rec['raised']), repr(rec['raised']))
                 # (c) play() returns True and leaves the process un-paused
                 if rec['op'] == 'play' and rec['live'] and rec['raised'] is None:
-                    if rec['ret'] != ('value', True) or (rec.get('paused_after') and 'pause' not in rec['nested']):
+                    if rec.get('paused_after') and 'pause' not in rec['nested']:  # (what play() returns is not laid down)
                         w.violate('c:play-not-playing', features(w, rec, ret=str(rec['ret'])),
                                   f"play() returned {rec['ret']}, paused afterwards={rec.get('paused_after')}")
                     if rec['paused'] and 'status_expected' in rec and rec.get('status_after') != rec['status_expected']:
@@ -198,7 +198,15 @@ def run_check(tier: str, seed: int, workers: Any) -> Dict[str, Any]:
     part3 = runner.run_explorer(
         factory, (), tiny, deep, seed, workers,
         rule=f'the three smallest programs with <= {deep["K"]} requests', assumptions=[], bounds=deep, describe=describe_unit)
-    return runner.merge([part1, part2, part3])
+    out = runner.merge([part1, part2, part3])
+    part4 = check_restored_pause()
+    out['violations'].extend(part4['violations'])
+    out['coverage']['evaluations'] += part4['n']
+    out['coverage']['transitions'] += part4['n']
+    out['coverage']['traces_validated_against_impl'] += part4['n']
+    out['coverage']['rule'] += (' || the status programs with a pause before every tick, the paused process checkpointed and '
+                                'recreated, then played: the status after play equals that of the same run without the restore')
+    return out
 
 
 def run_processes(tier: str, seed: int, workers: Any) -> Dict[str, Any]:
@@ -214,7 +222,42 @@ def run_processes(tier: str, seed: int, workers: Any) -> Dict[str, Any]:
         bounds={'K': budget['K'], 'J': budget['J'], 'program_len': 3}, describe=describe_unit)
 
 
+def check_restored_pause() -> Dict[str, Any]:
+    """The status message present before the pause is restored by play - also when the paused process was checkpointed and
+    recreated in between (the pause took effect in one instance, the play is given to the next)."""
+    from . import c08
+    out: Dict[str, Any] = {'n': 0, 'violations': []}
+    small = list(programs.linear_programs(2, ('S', 'Y1'), ('cont', 'wait'), ('ret',)))
+    progs = list(programs.with_actions(small, ('status',), wheres=('pre',)))
+    for program in progs:
+        _, errors, ticks, _ = c08.observe_paused(program, -1, 'pickle', False)
+        if errors:
+            continue
+        for pause_at in range(0, ticks + 1):
+            out['n'] += 2
+            case = {'part': 'restored-pause', 'program': program, 'pause_at': pause_at}
+            try:
+                ref, ref_errors, _, _ = c08.observe_paused(program, pause_at, 'pickle', False)
+                got, got_errors, _, restored = c08.observe_paused(program, pause_at, 'pickle', True)
+            except Exception as exc:  # noqa: BLE001
+                out['violations'].append({'clause': 'restored-pause:raised', 'features': {'exc': type(exc).__name__},
+                                          'detail': repr(exc), 'case': case})
+                continue
+            if ref_errors or got_errors or not restored:
+                continue
+            if got[4] != ref[4]:
+                out['violations'].append({'clause': 'e:status-not-restored', 'features': {'restored_in_between': True},
+                                          'detail': {'status_after_play': got[4], 'without_restore': ref[4]}, 'case': case})
+    best: Dict[Any, dict] = {}
+    for v in out['violations']:
+        best.setdefault((v['clause'], repr(sorted(v['features'].items()))), v)
+    out['violations'] = list(best.values())
+    return out
+
+
 def replay(doc: Dict[str, Any]) -> List[Dict[str, Any]]:
+    if (doc.get('case') or {}).get('part') == 'restored-pause':
+        return check_restored_pause()['violations']
     from ..cli import to_tuple
     if is_wc_unit(to_tuple(doc['unit'])):
         return wc_factory().replay(doc)
